@@ -150,17 +150,35 @@ def guard(ctx, facts):
 
 
 def rng(ctx, facts):
-    ctx.rule("RANGE: UniqueTag::shard_picker = u128::from_le_bytes(self.bytes) % u128::from(shard_count)")
+    ctx.rule("RANGE: UniqueTag::shard_picker is a function of the tag bytes and the shard count only, and - evaluated for 1..8 shards and sample tag values - lies in [0, shard_count) and reaches every shard")
     b = facts.bodies.get("report::hybrid::UniqueTag::shard_picker")
     if b is None:
         return ctx.missing("RANGE", "UniqueTag::shard_picker")
     tf = flow.find_calls(b, re.compile(r"TryFrom::try_from$"))
-    ok = False
-    e = None
+    from rules.C13 import ieval, NoEval
+    ok, why = False, "shard_picker does not convert a computed index with try_from"
     if tf:
-        e = flow.expr_of(b, tf[0][1]["args"][0])
-        ok = e[0] == "bin" and e[1] == "Rem" and "from_le_bytes" in str(e[2]) and "bytes" in str(e[2]) and ("arg", 2) == e[3][2][0][:2] if e[3][0] == "call" else False
-    ctx.ob("RANGE", "picker-shape", ok, "num % shard_count" if ok else f"shard index is {str(e)[:160]}", site_of(b))
+        e = flow.expr_of(b, tf[0][1]["args"][0], max_depth=14)
+        nums = [x for x in malsec.walk_calls(e) if re.search(r"from_(le|be|ne)_bytes$", x[1]) and x[2] and x[2][0][:3] == ("arg", 1, "bytes")]
+        others = [x for x in malsec._leaves(e, "arg") if x[:2] not in (("arg", 1), ("arg", 2))] + [x for x in malsec._leaves(e, "arg") if x[:2] == ("arg", 1) and x[:3] != ("arg", 1, "bytes")]
+        if not nums or others:
+            why = "the shard index is not a function of the tag bytes and the shard count only"
+        else:
+            bad = None
+            try:
+                for cnt in range(1, 9):
+                    seen = set()
+                    for num in sorted({(k << sh) & (2 ** 128 - 1) for k in range(0, 40) for sh in (0, 8, 32, 64, 96, 120)} | {2 ** 64 - 1, 2 ** 128 - 1}):
+                        v = ieval(e, {nums[0]: num, ("arg", 2): cnt, ("arg", 2, "0"): cnt})
+                        seen.add(v)
+                        if not (0 <= v < cnt) and bad is None:
+                            bad = f"tag value {num} with {cnt} shards is routed to shard {v} (out of range)"
+                    if len(seen) != cnt and bad is None:
+                        bad = f"with {cnt} shards only shards {sorted(seen)} are ever picked"
+            except NoEval as ex:
+                bad = f"cannot evaluate the shard index ({ex})"
+            ok, why = bad is None, (bad or "index = f(tag bytes, shard_count) in [0, shard_count), every shard reachable (evaluated for 1..8 shards)")
+    ctx.ob("RANGE", "picker-shape", ok, why, site_of(b))
 
 
 def input_bound(ctx, facts):
